@@ -54,7 +54,7 @@ var reCollection = regexp.MustCompile(`^([a-z]|X[0-9]+)s$`)
 func C07(e *core.Env) {
 	res := e.Res
 	res.Rule = "cases = well-formed declarative profiles that must compile: (a) N nested constraints side by side in one validation, N in 1..40 crossing the 25-letter boundary (quick: 14 values, thorough: all), (b) nesting depth 1..7, (c) 1..30 validations over the three levels, (d) every documented constraint kind x path shape (single, sequence, alternative, inverse, alternative inside a sequence inside an alternative, @type), (e) several constraints of one kind in one rule body (or / if / not-and), with messages of 0..3 placeholders, (f) seeded random formulas; " +
-		"for (a) and (b) the quantified variables and collections found in the real module (parsed with the engine's parser) must be exactly the model's var_name / plural; (g) 24 texts (each control / format / astral / quoting character on its own) x {profile name, validation name, message, list value}; non-trivial = every case; distinct by profile text"
+		"for (a) and (b) the quantified variables and collections found in the real module (parsed with the engine's parser) must be exactly the model's var_name / plural; (h) 28 legal but degenerate / unusual arguments (empty lists, zero counts, patterns with a backtick / quote / backslash class / newline, path keys over several lines or with tabs, zero / negative / float bounds, quantifier counts 0 and 10^6) plain and under not; (g) 24 texts (each control / format / astral / quoting character on its own) x {profile name, validation name, message, list value}; non-trivial = every case; distinct by profile text"
 	compile := func(label, profile string, known func(err error) bool) bool {
 		_, err := pkg.CompileProfile(profile, false, nil)
 		if err == nil {
@@ -214,11 +214,11 @@ func C07(e *core.Env) {
 			return map[string]any{"propertyConstraints": map[string]any{path: map[string]any{k: kinds[k]}}}
 		}
 		bodies := map[string]map[string]any{
-			"or":      {"or": []any{mk("ex.a"), mk("ex.b"), mk("ex.c")}},
-			"if":      {"if": mk("ex.a"), "then": mk("ex.b"), "else": mk("ex.c")},
-			"not-and": {"not": map[string]any{"and": []any{mk("ex.a"), mk("ex.b")}}},
+			"or":       {"or": []any{mk("ex.a"), mk("ex.b"), mk("ex.c")}},
+			"if":       {"if": mk("ex.a"), "then": mk("ex.b"), "else": mk("ex.c")},
+			"not-and":  {"not": map[string]any{"and": []any{mk("ex.a"), mk("ex.b")}}},
 			"same-map": {"propertyConstraints": map[string]any{"ex.a": map[string]any{k: kinds[k]}, "ex.b": map[string]any{k: kinds[k]}}},
-			"not-if":  {"not": map[string]any{"if": mk("ex.a"), "then": mk("ex.b"), "else": mk("ex.a")}},
+			"not-if":   {"not": map[string]any{"if": mk("ex.a"), "then": mk("ex.b"), "else": mk("ex.a")}},
 		}
 		for bn, body := range bodies {
 			for _, msg := range []string{"", "one {{ex.a}}", "three {{ex.a}} {{ex.b}} {{ex.a}}"} {
@@ -275,6 +275,65 @@ func C07(e *core.Env) {
 			compile(fmt.Sprintf("text %d as %s", ti, pos), p, nil)
 			res.Case(fmt.Sprintf("text|%d|%s", ti, pos), true)
 			res.Count("family=texts")
+		}
+	}
+	// (h) legal but degenerate or unusual ARGUMENTS of the constraints: empty lists, zero counts, patterns holding the
+	// characters that delimit Rego strings, path keys written over several lines, numeric bounds of every kind
+	type argCase struct{ name, body string }
+	pcb := func(path, constraint string) string {
+		return "    propertyConstraints:\n      " + path + ":\n        " + constraint + "\n"
+	}
+	argCases := []argCase{
+		{"in-empty-list", pcb("ex.a", "in: []")},
+		{"containsAll-empty-list", pcb("ex.a", "containsAll: []")},
+		{"containsSome-empty-list", pcb("ex.a", "containsSome: []")},
+		{"in-one-number", pcb("ex.a", "in: [ 0 ]")},
+		{"counts-zero", pcb("ex.a", "minCount: 0\n        maxCount: 0")},
+		{"exactCount-zero", pcb("ex.a", "exactCount: 0")},
+		{"lengths-zero", pcb("ex.a", "minLength: 0\n        maxLength: 0")},
+		{"pattern-backtick", pcb("ex.a", "pattern: \"x`y\"")},
+		{"pattern-double-quote", pcb("ex.a", "pattern: 'a\"b'")},
+		{"pattern-backslash-class", pcb("ex.a", "pattern: '^\\d+\\.\\d+$'")},
+		{"pattern-newline", pcb("ex.a", "pattern: \"a\\nb\"")},
+		{"pattern-dollar-brace", pcb("ex.a", "pattern: '^\\$\\{[a-z]+\\}$'")},
+		{"pattern-empty", pcb("ex.a", "pattern: ''")},
+		{"path-over-two-lines", pcb("\"ex.a /\\n ex.b\"", "minCount: 1")},
+		{"path-with-tabs", pcb("\"ex.a\\t/\\tex.b\"", "minCount: 1")},
+		{"path-padded", pcb("\"  ex.a  |  ex.b  \"", "minCount: 1")},
+		{"path-alternative-over-lines", pcb("\"ex.a |\\n ex.b |\\n ex.c\"", "in: [ a ]")},
+		{"path-folded-scalar", "    propertyConstraints:\n      ? >-\n        ex.a /\n        ex.b\n      :\n        minCount: 1\n"},
+		{"bounds-zero", pcb("ex.a", "minInclusive: 0\n        maxExclusive: 0")},
+		{"bounds-negative", pcb("ex.a", "minInclusive: -5\n        maxInclusive: -1")},
+		{"bounds-float", pcb("ex.a", "minExclusive: 0.5\n        maxInclusive: 1.5e3")},
+		{"atLeast-zero", pcb("ex.a", "atLeast:\n          count: 0\n          validation:\n            propertyConstraints:\n              ex.b:\n                minCount: 1")},
+		{"atMost-large", pcb("ex.a", "atMost:\n          count: 1000000\n          validation:\n            propertyConstraints:\n              ex.b:\n                minCount: 1")},
+		{"datatype-integer", pcb("ex.a", "datatype: xsd.integer")},
+		{"datatype-custom", pcb("ex.a", "datatype: ex.myType")},
+		{"in-mixed-scalars", pcb("ex.a", "in: [ a, 1, 1.5, true, \"\", ' ' ]")},
+		{"message-only-placeholders", "    message: \"{{ex.a}}{{ex.b}}\"\n" + pcb("ex.a", "minCount: 1")},
+		{"same-path-two-spellings", "    propertyConstraints:\n      ex.a:\n        minCount: 1\n      \"ex.a \":\n        maxCount: 3\n"},
+	}
+	for _, ac := range argCases {
+		for _, neg := range []bool{false, true} {
+			body := ac.body
+			if neg {
+				// the same body under `not`
+				lines := strings.Split(strings.TrimRight(body, "\n"), "\n")
+				if strings.HasPrefix(strings.TrimSpace(lines[0]), "message:") {
+					continue
+				}
+				for i := range lines {
+					lines[i] = "  " + lines[i]
+				}
+				body = "    not:\n" + strings.Join(lines, "\n") + "\n"
+			}
+			p := header + "violation:\n  - v\nvalidations:\n  v:\n    targetClass: ex.T\n" + body
+			if !strings.Contains(body, "message:") {
+				p = header + "violation:\n  - v\nvalidations:\n  v:\n    targetClass: ex.T\n    message: m\n" + body
+			}
+			compile(fmt.Sprintf("argument %s neg=%v", ac.name, neg), p, nil)
+			res.Case(fmt.Sprintf("arg|%s|%v", ac.name, neg), true)
+			res.Count("family=arguments")
 		}
 	}
 	// the model's declaration list, for the record
